@@ -64,7 +64,7 @@ def plan(tier, seed):
     items.append({"kind": "sysstore", "exhaustive": "system trust store holding the sim CA x certificate x name x cert_reqs x check_hostname x {no anchor option, foreign CA file}"})
     items.append({"kind": "concurrent_pairs", "exhaustive": None})
     items.append({"kind": "pairs", "exhaustive": "every relaxing option used on a first connection, then a default connection to every certificate/name in the same process"})
-    n = 3000 if tier == "quick" else 40000
+    n = 3000 if tier == "quick" else 160000
     per = 150 if tier == "quick" else 1000
     for s in range(0, n, per):
         items.append({"kind": "rand", "start": s, "count": per})
